@@ -365,4 +365,199 @@ def Op.idSafe (s : Store) : Op → Prop
   | .setNonEmpty _ k _ | .unsetAttr _ k | .setAttr _ k _ => k ≠ "entity_id"
   | _ => True
 
+
+theorem createDataArray_idsKept (s : Store) (b : ObjId) (n t i c dt sh : String) (hb : b < s.objs.length) :
+    IdsKept s (createDataArray s b n t i c dt sh).1 := by
+  unfold createDataArray
+  have hk := createInBlock_idsKept s b "A" n t i c hb
+  repeat' split
+  all_goals first
+    | exact IdsKept.refl s
+    | (rename_i heq; rw [heq] at hk; exact hk)
+    | (rename_i heq; rw [heq] at hk
+       exact (hk.trans (IdsKept.setAttr_key _ _ "ds:dtype" dt (by decide))).trans (IdsKept.setAttr_key _ _ "ds:shape" sh (by decide)))
+
+theorem createTag_idsKept (s : Store) (b : ObjId) (n t i c pos : String) (hb : b < s.objs.length) :
+    IdsKept s (createTag s b n t i c pos).1 := by
+  unfold createTag
+  have hk := createInBlock_idsKept s b "T" n t i c hb
+  split
+  · rename_i heq; rw [heq] at hk; exact hk
+  · rename_i heq; rw [heq] at hk; exact hk.trans (IdsKept.setAttr_key _ _ "ds:position" pos (by decide))
+
+theorem createDataFrame_idsKept (s : Store) (b : ObjId) (n t i c : String) (ns ts : List String) (cols : String) (hb : b < s.objs.length) :
+    IdsKept s (createDataFrame s b n t i c ns ts cols).1 := by
+  unfold createDataFrame
+  have hk := createInBlock_idsKept s b "D" n t i c hb
+  repeat' split
+  all_goals first
+    | exact IdsKept.refl s
+    | (rename_i heq; rw [heq] at hk; exact hk)
+    | (rename_i heq; rw [heq] at hk; exact hk.trans (IdsKept.setAttr_key _ _ "ds:cols" cols (by decide)))
+
+theorem createMultiTag_idsKept (s : Store) (b : ObjId) (n t i c : String) (ph : Option Handle) (hb : b < s.objs.length) :
+    IdsKept s (createMultiTag s b n t i c ph).1 := by
+  unfold createMultiTag
+  have hk := createInBlock_idsKept s b "M" n t i c hb
+  split
+  · exact IdsKept.refl s
+  · split
+    · exact IdsKept.refl s
+    · split
+      · exact IdsKept.refl s
+      · split
+        · exact IdsKept.refl s
+        · split
+          · exact IdsKept.refl s
+          · generalize createInBlock s b "M" n t i c = r at hk ⊢
+            obtain ⟨s1, x⟩ := r
+            cases x with
+            | error e => exact hk
+            | ok g =>
+              simp only
+              rename_i ph' _ _ _
+              have h2 := setArrayLink_idsKept s1 g b "positions" (idOf s1 ph'.obj)
+              generalize setArrayLink s1 g b "positions" (idOf s1 ph'.obj) = r2 at h2 ⊢
+              obtain ⟨s2, y⟩ := r2
+              cases y <;> exact hk.trans h2
+
+theorem propertyCreated_idsKept (s : Store) (sec : ObjId) (n i c dt : String) :
+    IdsKept s ((((((((s.openGroupCreate sec "properties").1.alloc { isGroup := false }).1.addLink (s.openGroupCreate sec "properties").2 n
+      ((s.openGroupCreate sec "properties").1.alloc { isGroup := false }).2).setAttr
+      ((s.openGroupCreate sec "properties").1.alloc { isGroup := false }).2 "entity_id" i).setAttr
+      ((s.openGroupCreate sec "properties").1.alloc { isGroup := false }).2 "created_at" c).setAttr
+      ((s.openGroupCreate sec "properties").1.alloc { isGroup := false }).2 "name" n).setAttr
+      ((s.openGroupCreate sec "properties").1.alloc { isGroup := false }).2 "ds:dtype" dt)) := by
+  have h1 := IdsKept.openGroupCreate s sec "properties"
+  have hlen : s.objs.length ≤ ((s.openGroupCreate sec "properties").1.alloc { isGroup := false }).2 := by
+    rw [alloc_snd]; exact h1.1
+  have h2 : IdsKept s ((s.openGroupCreate sec "properties").1.alloc { isGroup := false }).1 :=
+    h1.trans ⟨by rw [length_alloc]; omega, fun o ho => attr?_alloc_old _ _ o _ ho⟩
+  have h3 := h2.trans (IdsKept.addLink ((s.openGroupCreate sec "properties").1.alloc { isGroup := false }).1
+    (s.openGroupCreate sec "properties").2 n ((s.openGroupCreate sec "properties").1.alloc { isGroup := false }).2)
+  exact (((h3.setAttr_new _ "entity_id" i hlen).setAttr_new _ "created_at" c hlen).setAttr_new _ "name" n hlen).setAttr_new _ "ds:dtype" dt hlen
+
+theorem createProperty_idsKept (s : Store) (sec : ObjId) (n i c dt : String) : IdsKept s (createProperty s sec n i c dt).1 := by
+  unfold createProperty
+  cases hc : checkName n with
+  | error e => exact IdsKept.refl s
+  | ok u =>
+    simp only
+    have fin : IdsKept s (if (!dtypeStorable dt) = true then (s, (Except.error Err.stdInvalidArgument : Except Err ObjId))
+        else
+          (((((((s.openGroupCreate sec "properties").1.alloc { isGroup := false }).1.addLink
+              (s.openGroupCreate sec "properties").2 n ((s.openGroupCreate sec "properties").1.alloc { isGroup := false }).2).setAttr
+              ((s.openGroupCreate sec "properties").1.alloc { isGroup := false }).2 "entity_id" i).setAttr
+              ((s.openGroupCreate sec "properties").1.alloc { isGroup := false }).2 "created_at" c).setAttr
+              ((s.openGroupCreate sec "properties").1.alloc { isGroup := false }).2 "name" n).setAttr
+              ((s.openGroupCreate sec "properties").1.alloc { isGroup := false }).2 "ds:dtype" dt,
+            Except.ok ((s.openGroupCreate sec "properties").1.alloc { isGroup := false }).2)).1 := by
+      by_cases h2 : dtypeStorable dt = true
+      · simp only [h2, Bool.not_true, Bool.false_eq_true, if_false]
+        exact propertyCreated_idsKept s sec n i c dt
+      · have h2' : dtypeStorable dt = false := by simpa using h2
+        simp only [h2', Bool.not_false, if_true]
+        exact IdsKept.refl s
+    cases hopt : s.optGroup sec "properties" with
+    | none => simp only [Option.isSome_none, Bool.false_eq_true, if_false]; exact fin
+    | some cc =>
+      simp only
+      by_cases hf : (s.findDataByNameOrAttribute cc "entity_id" n).isSome = true
+      · simp only [hf, if_true]; exact IdsKept.refl s
+      · simp only [hf, if_false]; exact fin
+
+theorem createFeature_idsKept (s : Store) (tag b : ObjId) (i c lt : String) (dh : Option Handle) (ht : tag < s.objs.length)
+    (hfresh : ∀ x, s.optGroup tag "features" = some x → s.hasGroup x i = false) : IdsKept s (createFeature s tag b i c lt dh).1 := by
+  unfold createFeature
+  obtain ⟨hk, hnew⟩ := create2_new s tag "features" i ht hfresh
+  split
+  · exact IdsKept.refl s
+  · split
+    · exact IdsKept.refl s
+    · simp only
+      split
+      · exact IdsKept.refl s
+      · rename_i dh' _ _
+        have h3 := ((hk.setAttr_new _ "entity_id" i hnew).setAttr_new _ "created_at" c hnew).setAttr_new _ "link_type" lt hnew
+        have h4 := setArrayLink_idsKept
+          (((((s.openGroupCreate tag "features").1.openGroupCreate (s.openGroupCreate tag "features").2 i).1.setAttr
+            ((s.openGroupCreate tag "features").1.openGroupCreate (s.openGroupCreate tag "features").2 i).2 "entity_id" i).setAttr
+            ((s.openGroupCreate tag "features").1.openGroupCreate (s.openGroupCreate tag "features").2 i).2 "created_at" c).setAttr
+            ((s.openGroupCreate tag "features").1.openGroupCreate (s.openGroupCreate tag "features").2 i).2 "link_type" lt)
+          ((s.openGroupCreate tag "features").1.openGroupCreate (s.openGroupCreate tag "features").2 i).2 b "data" (idOf s dh'.obj)
+        generalize setArrayLink _ _ b "data" (idOf s dh'.obj) = r2 at h4 ⊢
+        obtain ⟨s2, y⟩ := r2
+        cases y <;> exact h3.trans h4
+
+/-- C12: no entry point of the store model changes the id of anything that exists — for EVERY operation and EVERY store -/
+theorem entity_id_immutable (s : Store) (op : Op) (hsafe : op.idSafe s) : IdsKept s (op.apply s).1 := by
+  cases op with
+  | createBlock n t i c => simp only [Op.apply, unitRes_fst]; exact createBlock_idsKept s n t i c
+  | createSection p n t i c => simp only [Op.apply, unitRes_fst]; exact createSectionIn_idsKept s p n t i c hsafe
+  | createSubSource p n t i c => simp only [Op.apply, unitRes_fst]; exact createSourceIn_idsKept s p n t i c hsafe
+  | createGroup b n t i c => simp only [Op.apply, unitRes_fst]; exact createInBlock_idsKept s b "G" n t i c hsafe
+  | createSource b n t i c => simp only [Op.apply, unitRes_fst]; exact createInBlock_idsKept s b "O" n t i c hsafe
+  | createDataArray b n t i c dt sh => simp only [Op.apply, unitRes_fst]; exact createDataArray_idsKept s b n t i c dt sh hsafe
+  | createDataFrame b n t i c ns ts cols => simp only [Op.apply, unitRes_fst]; exact createDataFrame_idsKept s b n t i c ns ts cols hsafe
+  | createTag b n t i c pos => simp only [Op.apply, unitRes_fst]; exact createTag_idsKept s b n t i c pos hsafe
+  | createMultiTag b n t i c ph => simp only [Op.apply, unitRes_fst]; exact createMultiTag_idsKept s b n t i c ph hsafe
+  | createProperty sec n i c dt => simp only [Op.apply, unitRes_fst]; exact createProperty_idsKept s sec n i c dt
+  | createFeature tg b i c lt dh => simp only [Op.apply, unitRes_fst]; exact createFeature_idsKept s tg b i c lt dh hsafe.1 hsafe.2
+  | setSectionLink o f id => exact setSectionLink_idsKept s o f id
+  | unsetLink o f => exact IdsKept.removeGroup s o f
+  | setArrayLink o b f k => exact setArrayLink_idsKept s o b f k
+  | setExtents m b k => exact setExtents_idsKept s m b k
+  | addReference t b k => exact addReference_idsKept s t b k
+  | addSource o b id => exact addSource_idsKept s o b id
+  | addMember g b k n i => exact addMember_idsKept s g b k n i
+  | setNonEmpty o k v =>
+    simp only [Op.apply, setNonEmpty]
+    split
+    · exact IdsKept.refl s
+    · exact IdsKept.setAttr_key s o k v hsafe
+  | unsetAttr o k => exact IdsKept.removeAttr_key s o k hsafe
+  | setAttr o k v => exact IdsKept.setAttr_key s o k v hsafe
+  | deleteBlock k => obtain ⟨D, h⟩ := (delete_only_unlinks s).1 k; simp only [Op.apply, okRes, h]; exact IdsKept.unlinkAll s D
+  | deleteSection p k => obtain ⟨D, h⟩ := (delete_only_unlinks s).2.1 p k; simp only [Op.apply, okRes, h]; exact IdsKept.unlinkAll s D
+  | deleteSubSource p k => obtain ⟨D, h⟩ := (delete_only_unlinks s).2.2.1 p k; simp only [Op.apply, okRes, h]; exact IdsKept.unlinkAll s D
+  | deleteBlockSource b k => obtain ⟨D, h⟩ := (delete_only_unlinks s).2.2.2.1 b k; simp only [Op.apply, okRes, h]; exact IdsKept.unlinkAll s D
+  | removeEntity b kd n i => obtain ⟨D, h⟩ := (delete_only_unlinks s).2.2.2.2 b kd n i; simp only [Op.apply, okRes, h]; exact IdsKept.unlinkAll s D
+  | deleteProperty sec k =>
+    simp only [Op.apply, okRes, deleteProperty]
+    repeat' split
+    all_goals first
+      | exact IdsKept.refl s
+      | exact IdsKept.removeData s _ _
+  | removeReference t b k =>
+    simp only [Op.apply, okRes, removeReference]
+    repeat' split
+    all_goals first
+      | exact IdsKept.refl s
+      | exact IdsKept.removeGroup s _ _
+  | removeSource o id =>
+    simp only [Op.apply, okRes, removeSource]
+    repeat' split
+    all_goals first
+      | exact IdsKept.refl s
+      | exact IdsKept.removeGroup s _ _
+  | removeMember g kd n i =>
+    simp only [Op.apply, okRes, removeMember]
+    repeat' split
+    all_goals first
+      | exact IdsKept.refl s
+      | exact IdsKept.removeGroup s _ _
+
+/-- and so across every history whose operations meet the side conditions when they are applied -/
+theorem history_ids_kept (ops : List Op) (s : Store) (h : ∀ (pre : List Op) (op : Op) (post : List Op), ops = pre ++ op :: post → op.idSafe (run s pre)) :
+    IdsKept s (run s ops) := by
+  induction ops generalizing s with
+  | nil => exact IdsKept.refl s
+  | cons op rest ih =>
+    have h0 : op.idSafe s := h [] op rest rfl
+    have h1 := entity_id_immutable s op h0
+    have h2 := ih (op.apply s).1 (fun pre o post he => by
+      have := h (op :: pre) o post (by rw [he]; rfl)
+      simpa [run] using this)
+    exact h1.trans h2
+
 end Nix.St
